@@ -30,6 +30,18 @@ CHECKS = {
          "Every (clean location, i, n in 1..3) for insert;delete and embed;delete: residues and the denotation incl. markers are restored. Every cut set of 0..4 positions (0 and L included) x every location of a smaller domain for slice*;concat: residues restored and the fragments of each feature together denote exactly its base atoms on their strands.",
          "L<=5 (inverse) / L<=6 (cuts) quick; fragments compared as multisets of (position,strand).",
          "DESIGN.md §5 C10"),
+ "C08": (MC, "exhaustive enumeration of (multi-segment region, modifier) through the real Resize/Locate against a spliced-coordinate model; all modifier values/strings; assembled locator strings",
+         "Every region of 1..4 (quick) / 1..5 (thorough) segments with lengths 1..3 and every per-segment orientation, listed and complemented (plus nested shapes) x all five modifier forms with both offsets in [-len-3,len+3]: the atoms covered by Resize equal the slice [lo,hi) of the spliced axis (outward extension of the first/last segment outside), zero-length results sit on the right boundary, Locate bytes agree, and the same law holds for the complemented region. Every modifier value prints and re-parses to itself; every modifier token string of <=6 tokens is a parse/print fixed point; every locator string X, @M, X@M assembled from modifiers, points, ranges, complement ranges and selectors is compared with the reference semantics on 6 feature tables.",
+         "Segments of a region are disjoint with gap 1; spliced-axis model written independently of region.go; selector reference from C19.",
+         "DESIGN.md §5 C08"),
+ "C18": (MC, "exhaustive enumeration of all byte values and all small sequences/queries through Complement/Transcribe/Match/Search against IUPAC base-set tables",
+         "All 256 bytes through Complement and Transcribe; every printable query byte x every printable sequence byte through Match and Search (the complete match table incl. literals and regexp metacharacters); all sequences of length <=5 (quick) / <=7 (thorough) x all queries of length <=3 over an 8-letter alphabet: Search equals the set of all overlapping case-insensitive occurrences, Match equals the leftmost non-overlapping scan of the base-set containment predicate.",
+         "IUPAC table written out in the checker; Match row K is test-pinned and listed as a known finding with an exact deviation.",
+         "DESIGN.md §5 C18"),
+ "C19": (MC, "exhaustive enumeration of selector token strings x features, boolean filter trees x locations, tables, insertion sequences and location triples against reference predicates",
+         "Every selector string of <=4 (quick) / <=6 (thorough) tokens over a 12-token alphabet x 36 features against a reference selector written from the statement; And/Or/Not trees of depth <=2 over key/qualifier/Within/Overlap/strand atoms x every location of a 2-part domain against predicates over the denotation; Filter over every table of 0..3 features; every insertion sequence of 3 locations (4 on a subset, source keys mixed in) keeps the multiset, sources first and no inversion w.r.t. LocationLess after every single insertion; irreflexivity, asymmetry, transitivity over all triples.",
+         "Backslash/trailing-slash selectors excluded from the semantic oracle; Go regexp on both sides.",
+         "DESIGN.md §5 C19"),
  "C09": (MC, "exhaustive enumeration of all segment lists (bounded) through the real Minimize/Invert*, partition oracle",
          "Every list of 1..3 (quick) / 1..4 (thorough) directed or zero-length segments over 7 coordinates, flat and in nested/complemented Regions shapes, is pushed through the real Minimize, InvertLinear and InvertCircular and judged by a position-counting partition oracle; the space is finite and fully enumerated, so inside the bound the result is a coverage statement, not a sample.",
          "Bound n=6 positions (plus n=1..3 fully); regions inside [0,n]; at least one region. Oracle is position counting written independently of region.go.",
